@@ -254,7 +254,7 @@ PROPS['C08'] = dict(
     level_note=SEARCH_NOTE + ' ' + ORACLE_ASSUMPTION + ' The engine counting plies instead of moves only weakens its claim and is not objected to.',
     rule='evaluations = searches. Non-trivial = distinct searches that had a mate in one available or ended with a mate announcement.',
     assumptions=[ORACLE_ASSUMPTION],
-    quick=dict(cases=110, shards=16, scale=4, gates={'c08:mate_in_one_available': 200, 'c08:mate_announcements': 200, 'c08:kind_sparse_endgame': 100, 'c08:kind_game_flow_successor': 150, 'c08:mate_in_one_by_pawn_available': 6,
+    quick=dict(cases=125, shards=16, scale=4, gates={'c08:mate_in_one_available': 200, 'c08:mate_announcements': 200, 'c08:kind_sparse_endgame': 60, 'c08:kind_overwhelming_material': 60, 'c08:kind_game_flow_successor': 150, 'c08:mate_in_one_by_pawn_available': 6,
                'c08:special_mate_en_passant_line_through_captured_pawn': 40, 'c08:special_mate_castling': 40, 'c08:special_mate_knight_promotion': 40, 'uci:mate_in_one_available': 30, 'c08:announcement_confirmed': 150, 'c08:mate_in_one_high_clock': 10}, min_nontrivial=300),
     thorough=dict(cases=3000, shards=16, scale=4, min_nontrivial=15000),
 )
